@@ -81,6 +81,21 @@ CHECKS = {
              "cache) with minimum table cache and a small write buffer; seed-driven delays at libc I/O calls and inside "
              "skiplist inserts; ThreadSanitizer and ASan/UBSan are the oracle; the monitor reports which API pairs overlapped.",
         note="Only executed access pairs are judged; non-default ports (no atomics, Windows) are outside this build."),
+    "C15": dict(
+        cat="exploration", engine="fmtmon_log+refcodec", design="3/C15",
+        technique="runtime monitoring: real log writer/reader cross-checked byte-for-byte against an independently written codec; bitwise CRC-32C reference",
+        text="Real writer bytes == independent encoder bytes for a boundary grid of (initial length, record length) and random "
+             "mixes; real reader == independent decoder on cuts at (every) byte and on bit/byte/burst/sector alterations "
+             "(no alien record, drop reported, resume at next block); CRC-32C vs bitwise reference on both code paths.",
+        note="Trusts harness/refcodec.c as the format definition; legal-cut exemption as stated in DESIGN section 6."),
+    "C11": dict(
+        cat="fault_enumeration", engine="corruptmon", design="3/C11",
+        technique="runtime monitoring: enumerated single-byte/bit/truncation/sector corruptions of generated database files, answers compared with the model (+ASan/UBSan pass)",
+        text="Every byte of index/filter/metaindex/footer/trailers and a stride over data bytes (every byte in thorough) of "
+             "every table, WAL, MANIFEST and CURRENT of generated databases gets each bit flip, 00, FF, truncation and a "
+             "zeroed sector; with paranoid checks + checksum verification every get/scan must be correct or report an "
+             "error; WAL/MANIFEST damage may drop whole batches only.",
+        note="One alteration per case; small generated databases."),
     "C12": dict(
         cat="fault_enumeration", engine="faultmon+iomon", design="3/C12",
         technique="runtime monitoring: fault injection at the libc boundary, statuses + post-fault recovery checked against the acknowledged history (+ASan/UBSan pass)",
